@@ -110,6 +110,8 @@ type SiteFact struct {
 	ParamT   string `json:"paramT"`
 	FieldT   string `json:"fieldT"` // declared type of a field named Recv declared earlier in the class
 	InLambda bool   `json:"inLambda"`
+	// LambdaT: the receiver is the explicitly typed parameter of the enclosing lambda, `(T it) -> it.m()`: its declared type
+	LambdaT string `json:"lambdaT"`
 }
 
 type MemberFact struct {
@@ -208,6 +210,8 @@ type renderer struct {
 	fnName  string
 	lambda  int
 	style   int
+	// the explicitly typed parameter of the innermost enclosing lambda ("" if none)
+	lambdaParam, lambdaType string
 }
 
 func annText(a Ann) string {
@@ -257,6 +261,9 @@ func (rd *renderer) expr(e *Expr) {
 		}
 		sf := SiteFact{Fn: rd.fn, FnName: rd.fnName, Kind: "call", Callee: e.Callee, Line: w.line, C0: w.colR, B0: w.colB,
 			RecvKind: e.RecvKind, Recv: e.Recv, InLambda: rd.lambda > 0}
+		if e.RecvKind == "var" && rd.lambdaParam != "" && e.Recv == rd.lambdaParam {
+			sf.LambdaT = rd.lambdaType
+		}
 		if e.RecvKind == "var" {
 			sf.LocalT = rd.sc.local(e.Recv)
 			sf.ParamT = rd.sc.params[e.Recv]
@@ -284,6 +291,20 @@ func (rd *renderer) expr(e *Expr) {
 		rd.args(e.Args)
 		w.s(")")
 	case "lambda":
+		if e.Type != "" {
+			// an explicitly typed parameter: a declaration like any other parameter, visible in the body
+			rd.ref(e.Type)
+			w.s("(" + e.Type + " " + e.Text + ") -> ")
+			rd.sc.locals = append(rd.sc.locals, map[string]string{e.Text: e.Type})
+			oldP, oldT := rd.lambdaParam, rd.lambdaType
+			rd.lambdaParam, rd.lambdaType = e.Text, e.Type
+			rd.lambda++
+			rd.expr(e.Body)
+			rd.lambda--
+			rd.lambdaParam, rd.lambdaType = oldP, oldT
+			rd.sc.locals = rd.sc.locals[:len(rd.sc.locals)-1]
+			break
+		}
 		w.s(e.Text + " -> ")
 		rd.lambda++
 		rd.expr(e.Body)
